@@ -326,7 +326,8 @@ theorem fold_rev_pow {α : Type} (G : Nat → α → α) (n : Nat) (a : α) :
 theorem four_pow (k : Nat) : 4 ^ k = 2 ^ (2 * k) := by
   rw [Nat.pow_mul]
 
-/-- the counters `(dist, dist4)` of `fft_private` in pass `j` -/
+/-- the counters `dist` (first fact), `dist4` (second fact) of `fft_private` in pass `j`
+    (the translated loop state is `(dist4, dist)`, the order of declaration) -/
 theorem quarter (n j : Nat) (hj : j < n / 2) :
     2 ^ n / 4 ^ (j + 1) = 2 ^ (n - 2 - 2 * j) ∧ 2 ^ n / 4 ^ j = 4 * 2 ^ (n - 2 - 2 * j) ∧
       0 < 2 ^ (n - 2 - 2 * j) ∧ 4 * 2 ^ (n - 2 - 2 * j) ≤ 2 ^ n := by
